@@ -83,6 +83,20 @@ extern void mpt_text_init(MPT_STRUCT(text) *tx, const MPT_STRUCT(text) *from)
 	}
 	*tx = def_text;
 }
+/* replace the content by a copy (or the defaults); unchanged when a string can not be duplicated */
+static int textAssign(MPT_STRUCT(text) *tx, const MPT_STRUCT(text) *from)
+{
+	MPT_STRUCT(text) tmp;
+	
+	mpt_text_init(&tmp, from);
+	if (from && ((from->_font && !tmp._font) || (from->_value && !tmp._value))) {
+		mpt_text_fini(&tmp);
+		return MPT_ERROR(BadOperation);
+	}
+	mpt_text_fini(tx);
+	*tx = tmp;
+	return 0;
+}
 /*!
  * \ingroup mptPlot
  * \brief set text properties
@@ -111,9 +125,7 @@ extern int mpt_text_set(MPT_STRUCT(text) *tx, const char *name, MPT_INTERFACE(co
 			if (len && from == tx) {
 				return 0;
 			}
-			mpt_text_fini(tx);
-			mpt_text_init(tx, len ? from : 0);
-			return 0;
+			return textAssign(tx, len ? from : 0);
 		}
 		if ((len = mpt_string_pset(&tx->_value, src)) >= 0) {
 			return len;
@@ -140,9 +152,7 @@ extern int mpt_text_set(MPT_STRUCT(text) *tx, const char *name, MPT_INTERFACE(co
 			if (len && from == tx) {
 				return 0;
 			}
-			mpt_text_fini(tx);
-			mpt_text_init(tx, len ? from : 0);
-			return 0;
+			return textAssign(tx, len ? from : 0);
 		}
 		return MPT_ERROR(BadType);
 	}
